@@ -124,7 +124,9 @@ class Run:
             print(f"KNOWN-FINDING: property={self.pid} {what} [{o['key']}]")
         for o in violations:
             h = hashlib.sha256(o["key"].encode()).hexdigest()[:12]
-            path = os.path.join(EVID, "violations", f"{self.pid}-{h}.json")
+            vdir = os.path.join(EVID, "violations") if not os.environ.get("VERIF_NO_EVIDENCE") else "/tmp/verif-matrix-violations"
+            os.makedirs(vdir, exist_ok=True)
+            path = os.path.join(vdir, f"{self.pid}-{h}.json")
             with open(path, "w") as fh:
                 json.dump({"property": self.pid, **o}, fh, indent=1)
             print(f"--- {o['status']} {self.pid} rule {o['rule']}")
@@ -182,7 +184,7 @@ class Run:
             "wall_s": round(time.time() - self.t0, 2),
             "violations": len(violations),
         }
-        if not only_key:
+        if not only_key and not os.environ.get("VERIF_NO_EVIDENCE"):
             with open(os.path.join(EVID, f"{self.pid}.json"), "w") as fh:
                 json.dump(ev, fh, indent=1, ensure_ascii=False)
         print(f"[{self.pid}] {ok}/{n} obligations discharged, {len(violations)} violation(s), "
